@@ -823,6 +823,12 @@ impl<'a> Iterator for Iter<'a> {
             IterInner::Slice(iter) => iter.next().map(|(k, v)| (k.as_str().unwrap(), v)),
         }
     }
+
+    #[inline]
+    fn size_hint(&self) -> (usize, Option<usize>) {
+        let len = self.len();
+        (len, Some(len))
+    }
 }
 
 impl<'a> ExactSizeIterator for Iter<'a> {
@@ -850,6 +856,11 @@ impl<'a> Iterator for IterMut<'a> {
     fn next(&mut self) -> Option<Self::Item> {
         self.0.next().map(|(k, v)| (k.as_str(), v))
     }
+
+    #[inline]
+    fn size_hint(&self) -> (usize, Option<usize>) {
+        self.0.size_hint()
+    }
 }
 
 impl<'a> ExactSizeIterator for IterMut<'a> {
@@ -870,6 +881,11 @@ impl<'a> Iterator for Keys<'a> {
     fn next(&mut self) -> Option<Self::Item> {
         self.0.next().map(|(k, _)| k)
     }
+
+    #[inline]
+    fn size_hint(&self) -> (usize, Option<usize>) {
+        self.0.size_hint()
+    }
 }
 
 impl<'a> ExactSizeIterator for Keys<'a> {
@@ -889,6 +905,11 @@ macro_rules! impl_value_iter {
             #[inline]
             fn next(&mut self) -> Option<Self::Item> {
                 self.0.next().map(|(_, v)| v)
+            }
+
+            #[inline]
+            fn size_hint(&self) -> (usize, Option<usize>) {
+                self.0.size_hint()
             }
         }
 
